@@ -3,10 +3,12 @@
     guard `xio/fs/internal/symlinks.go`, written branch for branch.  Core Lean only.
 
     Strings are byte lists (`List Nat`), paths are lists of components counted from `/`.
-    The model is *lexical*: a system call on a path looks the path up as written.  That is what the kernel does as long
-    as no traversed component is a symbolic link; the extractors call `ensureNoSymlinks` before every system call, and
-    `Props/C19.lean` proves (`ensureNoSymlinks_spec`, `extract_wf`) that after a successful guard no component below
-    the root is a link, so the lexical reading is the kernel's reading at every call the extractors make. -/
+    This model is *lexical*: a system call on a path looks the path up as written, a symbolic link is an opaque leaf.
+    It is NOT what the driver executes and it cannot, by itself, say anything about writing through links; it is the
+    proof device of `Props/C19.lean`.  The executed model is `Model/ExtractR.lean` (the kernel's link-following
+    resolution); `C19.resolving_is_lexical` (Lemmas/ExtractREq.lean) PROVES that the two coincide when the extractors
+    call `EnsureNoSymlinks` and the destination is not below (or itself) a link, and `C19.guardless_escapes` that they
+    do not without the guard. -/
 namespace Ex
 
 abbrev Comp := List Nat
